@@ -19,6 +19,8 @@ pub fn hash_flow(packet: &[u8], num_workers: usize) -> usize {
             || (packet[12] == 0x86 && packet[13] == 0xDD))
     {
         14
+    } else if packet.len() >= 24 && packet[0] == 0x1e && packet[1] == 0x00 {
+        4 // NULL/loopback datalink header (4 bytes), as the packet parser accepts it
     } else {
         0 // Raw IP packet
     };
